@@ -64,8 +64,7 @@ fn main() {
             f(&mut r);
             std::process::exit(r.finish());
         }
-        #[cfg(any())]
-        "serve" => {}
+        "serve" => verif_harness::oracle_srv::serve(),
         _ => usage(),
     }
 }
